@@ -186,6 +186,16 @@ class Datapath:
         if k.ofm.bits <= 16 or k.uses_lut:
             y = np.clip(y, k.act_min, k.act_max)  # (the 16-bit activation range registers do not apply to a plain 32-bit OFM)
         if k.uses_lut:
+            if k.ifm.bits == 16 and k.ofm.bits == 16:
+                # 512 entries of 32 bit (slope << 16) + base over the whole table area; interpolation on the low 7 bits
+                raw = self.m.read_bytes(HW.SHRAM_REGION, self.hw["lut_addr"], 2048).astype(np.int64).reshape(512, 4)
+                word = raw[:, 0] | (raw[:, 1] << 8) | (raw[:, 2] << 16) | (raw[:, 3] << 24)
+                word = np.where(word >= (1 << 31), word - (1 << 32), word)
+                base = ((word & 0xFFFF) ^ 0x8000) - 0x8000
+                slope = (word - base) >> 16
+                idx = np.clip(256 + (y >> 7), 0, 511)
+                off = y & 0x7F
+                return np.clip(base[idx] + ((slope[idx] * off + 64) >> 7), -32768, 32767)
             if k.ifm.bits != 8 or k.ofm.bits not in (8, 32):
                 raise NotModelled("lookup table with non 8-bit data")
             if k.ofm.bits == 32:
@@ -286,7 +296,7 @@ class Datapath:
                 raise NotModelled("16-bit elementwise " + str(k.sub))
         if wide and k.sub not in ("ADD", "SUB", "MUL", "MIN", "MAX", "SHR", "SHL", "CLZ"):
             raise NotModelled("32-bit elementwise " + str(k.sub))
-        if k.uses_lut and not (k.ifm.bits == 8 and k.ofm.bits in (8, 32)):
+        if k.uses_lut and not ((k.ifm.bits == 8 and k.ofm.bits in (8, 32)) or (k.ifm.bits == 16 and k.ofm.bits == 16)):
             raise NotModelled("lookup table on %d-bit data" % k.ifm.bits)
         if wide and k.sub in ("ADD", "SUB") and (k.ifm_scale_mode != 0 or k.opa_scale[0] != 1 or k.opb_scale[0] != 1):
             raise NotModelled("32-bit add/sub with operand scaling")
